@@ -4,7 +4,7 @@ import json, subprocess, sys, tempfile, xml.etree.ElementTree as ET, os
 base = json.load(open('/root/.vp/BASELINE.json'))
 with tempfile.TemporaryDirectory() as d:
     x = os.path.join(d, 'j.xml')
-    cmd = base['cmd'].replace('<file>', x) + ' -n 16'
+    cmd = base['cmd'].replace('<file>', x) + ' -n ' + os.environ.get('SUITE_N', '8')
     p = subprocess.run(cmd, shell=True, capture_output=True, text=True)
     passed = set()
     for tc in ET.parse(x).getroot().iter('testcase'):
